@@ -879,26 +879,38 @@ of the node table / point array (casting to the table's dtype truncates every no
 theorem tree_and_dotprops_queries_are_not_truncated :
     Navis.Gen.SnapCast.castOf "TreeNeuron" = .float64 ∧ Navis.Gen.SnapCast.castOf "Dotprops" = .float64 := by decide
 
-/-- … hence skeletons and point clouds of every coordinate dtype snap every decimal query to a true nearest row. -/
+/-- **Tie to the source, all three implementations** (since fix f2bf081 `MeshNeuron.snap` casts to `np.float64` as well; before, it
+cast to `self.vertices.dtype` and truncated every non-integer query on integer vertex arrays). -/
+theorem no_snap_truncates_its_query :
+    ∀ cls ∈ ["TreeNeuron", "MeshNeuron", "Dotprops"], Navis.Gen.SnapCast.castOf cls = .float64 := by decide
+
+/-- **snap is exact for skeletons, meshes and point clouds of every coordinate dtype** (one statement over the regenerated
+table): whatever the dtype of the node table / vertex array / point array — integer or float — every decimal query is
+answered by a row that exists, with 100 × its squared distance to the TRUE query, and no row is nearer. -/
+theorem snap_exact_for_every_neuron_type_and_dtype (cls : String) (hc : cls ∈ ["TreeNeuron", "MeshNeuron", "Dotprops"])
+    (dataIsInt : Bool) (data : List P3) (q10 : P3) (k : Nat) (m : Int)
+    (hs : snapQ (Navis.Gen.SnapCast.castOf cls) dataIsInt data q10 = some (k, m)) :
+    ∃ v, data[k]? = some v ∧ m = d2 q10 (scale10 v) ∧ ∀ r ∈ data, d2 q10 (scale10 v) ≤ d2 q10 (scale10 r) := by
+  refine snap_query_not_truncated _ dataIsInt (Or.inl ?_) data q10 k m hs
+  rw [no_snap_truncates_its_query cls hc]; decide
+
+/-- … in particular skeletons and point clouds (the statement proved before the mesh repair, kept). -/
 theorem tree_and_dotprops_snap_exact (cls : String) (hc : cls = "TreeNeuron" ∨ cls = "Dotprops") (dataIsInt : Bool)
     (data : List P3) (q10 : P3) (k : Nat) (m : Int)
     (hs : snapQ (Navis.Gen.SnapCast.castOf cls) dataIsInt data q10 = some (k, m)) :
     ∃ v, data[k]? = some v ∧ m = d2 q10 (scale10 v) ∧ ∀ r ∈ data, d2 q10 (scale10 v) ≤ d2 q10 (scale10 r) := by
-  refine snap_query_not_truncated _ dataIsInt (Or.inl ?_) data q10 k m hs
-  rcases hc with rfl | rfl
-  · rw [tree_and_dotprops_queries_are_not_truncated.1]; decide
-  · rw [tree_and_dotprops_queries_are_not_truncated.2]; decide
+  refine snap_exact_for_every_neuron_type_and_dtype cls ?_ dataIsInt data q10 k m hs
+  rcases hc with rfl | rfl <;> decide
 
-/-- **Mesh neurons — partial.**  Full statement wanted: the same for `MeshNeuron.snap` and every vertex dtype.  `MeshNeuron.snap`
-casts the query to `self.vertices.dtype`; proved: on float vertices (what trimesh processing produces) the answer is exact.  On
-integer vertices (`MeshNeuron(…, process=False)`, `m.vertices = int_array`) the query is truncated — open finding, counter-example
-below. -/
-theorem mesh_snap_exact_on_float_vertices_partial (data : List P3) (q10 : P3) (k : Nat) (m : Int)
-    (hs : snapQ (Navis.Gen.SnapCast.castOf "MeshNeuron") false data q10 = some (k, m)) :
+/-- **Mesh neurons** (full since fix f2bf081; was `mesh_snap_exact_on_float_vertices_partial`, proved for float vertices only while
+`MeshNeuron.snap` cast the query to `self.vertices.dtype`): exact for every vertex dtype. -/
+theorem mesh_snap_exact_on_every_vertex_dtype (dataIsInt : Bool) (data : List P3) (q10 : P3) (k : Nat) (m : Int)
+    (hs : snapQ (Navis.Gen.SnapCast.castOf "MeshNeuron") dataIsInt data q10 = some (k, m)) :
     ∃ v, data[k]? = some v ∧ m = d2 q10 (scale10 v) ∧ ∀ r ∈ data, d2 q10 (scale10 v) ≤ d2 q10 (scale10 r) :=
-  snap_query_not_truncated _ false (Or.inr rfl) data q10 k m hs
+  snap_exact_for_every_neuron_type_and_dtype "MeshNeuron" (by decide) dataIsInt data q10 k m hs
 
-/-- **What truncation does** (cast to the data's integer dtype): rows at x = 0, 1, 2, 3 and the query (2.9, 0, 0) — the answer is
+/-- **What truncation does** (cast to the data's integer dtype — historical for `MeshNeuron.snap`, repaired by fix f2bf081; this
+is what seed-like regressions of any `snap` would do): rows at x = 0, 1, 2, 3 and the query (2.9, 0, 0) — the answer is
 the row at x = 2 "at distance 0" instead of the row at x = 3 at distance 0.1; negative coordinates truncate toward zero. -/
 theorem truncated_query_snaps_to_wrong_node :
     let data : List P3 := [⟨0, 0, 0⟩, ⟨1, 0, 0⟩, ⟨2, 0, 0⟩, ⟨3, 0, 0⟩]
